@@ -81,6 +81,7 @@ let result_sx_of a (act : M.action) = function
   | M.RAtomic M.ACommitFailed -> L [A "write"; L [L [A "bulk_error"]]]
 
 let () = register "importx" (function
+  | L [A "importx_s11b"] -> L [A "importx_s11b"]     (* schema scenario: monitor only (Ledger/Core.v has no schemas) *)
   | L [A "importx"; feat; L ops; L script] ->
     let f = features_of feat in
     let h = List.map (function L [n; op] -> (zarg n, op_of op) | _ -> failwith "bad op") ops in
